@@ -18,15 +18,6 @@ theorem sx_closed :
     isHivevar [kwT "HIVEVAR"] = true ∧ isLocal [] = false ∧ isHivevar [] = false ∧
     nameSexp [kwT "TIMEZONE"] = "(name (id " ++ hx (str "TIMEZONE") ++ " -))" := by decide +kernel
 
-theorem litValue_raw (t : Tok) : litValue (rawPiece true t).tok = litValue t := by
-  cases t <;> simp [rawPiece, litValue, noText]
-
-theorem optLitSexp_collateNorm (co : List Tok) : optLitSexp (collateNorm co) = optLitSexp co := by
-  unfold collateNorm optLitSexp
-  cases h : co.getLast? with
-  | none => rfl
-  | some t => simp [litValue_raw]
-
 theorem target_sexp_norm (tg : SetTarget) : tg.norm.sexp = tg.sexp := by
   cases tg with
   | one name => rfl
@@ -60,7 +51,6 @@ theorem stmt_sexp_norm (s : Stmt) (hm : s.mdOk) : s.norm.sexp = s.sexp := by
     by_cases h1 : isLocal md = true
     · simp [h1, l1]
     · simp [h1, l5]
-  | setNames kw md colon name cs co => simp [Stmt.norm, Stmt.sexp, litValue_raw, optLitSexp_collateNorm]
   | assert kw e ak m => simp [Stmt.norm, Stmt.sexp, norm_sexp, optExprSexp_norm]
   | ddl s0 => simp [Stmt.norm, Stmt.sexp, SqlVerif.Ddl.stmt_sexp_norm]
   | startTx _ _ _ => exact stmt_sexp_norm_fix _ rfl
@@ -71,6 +61,7 @@ theorem stmt_sexp_norm (s : Stmt) (hm : s.mdOk) : s.norm.sexp = s.sexp := by
   | release _ _ _ => exact stmt_sexp_norm_fix _ rfl
   | setRole _ _ _ _ => exact stmt_sexp_norm_fix _ rfl
   | setNamesDefault _ _ _ _ _ => exact stmt_sexp_norm_fix _ rfl
+  | setNames _ _ _ _ _ _ => exact stmt_sexp_norm_fix _ rfl
   | setTx _ _ _ _ _ _ => exact stmt_sexp_norm_fix _ rfl
   | useObj _ _ _ => exact stmt_sexp_norm_fix _ rfl
   | useDefault _ _ => exact stmt_sexp_norm_fix _ rfl
